@@ -498,7 +498,7 @@ func runC13(r *ev.Run) {
 	})
 	r.Set("batches", len(batches))
 	r.Set("configs", len(cfgs))
-	r.Set("traces_validated_against_impl", r.Get("transitions"))
+	r.Alias("traces_validated_against_impl", "transitions")
 	r.Set("rule", "for every (backend, root type, finalized base contents) and every batch of <= depth operations over 4 keys x {a,b,'',remove} (includes remove-then-reinsert, insert-then-remove, overwrite with the same value): GetWriteLog(parent, child) applied to the parent gives exactly the child contents/root; RootCache.Apply of every entry-level mutant (drop, drop-all, duplicate, key/value alteration incl. insert<->delete, swap, append) on a second database: accepted only if its net effect equals the announced transition, else the expected root (and any other new root) is absent afterwards; the honest log is accepted and reads back")
 	r.Assume("keys limited to 4, logs <= depth entries", "destination database is recreated after an accepted neutral mutant")
 	r.Finish()
